@@ -5,6 +5,8 @@
 //                          6/134, 42/170, 124/252, 28/156); parameter request lists = every list of 0..=2 codes out of the same 10:
 //                          the option appears in the reply's option table iff its OWN code is in the list
 //   policy/subnet-defaults netmask (1) / broadcast (28) defaults of a match-subnet policy: present iff requested
+//   policy/first-matching-sibling-wins  1..=3 sibling policies (flat, and under a match-all parent), every subset of them matching: address
+//                          set and option value are those of the first matching sibling
 // Child module of dhcp (mod.rs), compiled only under cfg(test) in the scratch copy.
 use super::*;
 
@@ -60,5 +62,48 @@ fn verif_policy_contracts() {
             o.other.contains_key(&dhcppkt::OPTION_NETMASK), o.other.contains_key(&dhcppkt::OPTION_BROADCAST)));
     }
     t_def.done();
+
+    // first match among siblings (flat and one level down): of several sibling policies that match, the FIRST one is applied and the
+    // later ones are not even looked at -- address set and option values are those of the first matching sibling
+    let mut t_first = Tally::new("policy/first-matching-sibling-wins");
+    let sibling = |i: usize, matches: bool| {
+        let mut p = config::Policy { ..Default::default() };
+        if matches { p.match_all = true; } else { p.match_chaddr = Some(vec![9, 9, 9, 9, 9, 9]); }
+        let mut a = pool::PoolAddresses::default();
+        a.insert(std::net::Ipv4Addr::new(192, 0, 2, 10 + i as u8));
+        p.apply_address = Some(a);
+        p.apply_other.insert(dhcppkt::DhcpOption::from(129u8), Some(dhcppkt::DhcpOptionTypeValue::String(format!("v{}", i))));
+        p
+    };
+    for n in 1..=3usize {
+        for mask in 0..(1usize << n) {
+            for nested in [false, true] {
+                let sibs: Vec<config::Policy> = (0..n).map(|i| sibling(i, mask & (1 << i) != 0)).collect();
+                let first = (0..n).find(|i| mask & (1 << i) != 0);
+                let top: Vec<config::Policy> = if nested {
+                    let mut parent = config::Policy { match_all: true, policies: sibs, ..Default::default() };
+                    let mut a = pool::PoolAddresses::default();
+                    a.insert(std::net::Ipv4Addr::new(192, 0, 2, 50));
+                    parent.apply_address = Some(a);
+                    vec![parent]
+                } else { sibs };
+                let req = request(&[129]);
+                let mut resp: Response = Default::default();
+                let applied = apply_policies(&req, &top, &mut resp);
+                let addr: Option<Vec<std::net::Ipv4Addr>> = resp.address.as_ref().map(|s| { let mut v: Vec<_> = s.iter().copied().collect(); v.sort(); v });
+                let opt = resp.options.to_options().other.get(&dhcppkt::DhcpOption::from(129u8)).cloned();
+                let want_addr = match (first, nested) {
+                    (Some(f), _) => Some(vec![std::net::Ipv4Addr::new(192, 0, 2, 10 + f as u8)]),
+                    (None, true) => Some(vec![std::net::Ipv4Addr::new(192, 0, 2, 50)]),
+                    (None, false) => None,
+                };
+                let want_opt = first.map(|f| format!("v{}", f).into_bytes());
+                let ok = applied == (nested || first.is_some()) && addr == want_addr && opt == want_opt;
+                t_first.check(ok, || format!("{} sibling policies{}, matching ones (bit i = sibling i) {:#b}: applied={} address set {:?} (expected {:?}), option 129 {:?} (expected {:?})",
+                    n, if nested { " under a match-all parent" } else { "" }, mask, applied, addr, want_addr, opt, want_opt));
+            }
+        }
+    }
+    t_first.done();
 }
 
